@@ -1011,6 +1011,12 @@ private:
     // crab::CrabStats::count("Interprocedural.num_calling_contexts");
   }
 
+  static variable_t mk_fresh(const variable_t &like, const std::string &name) {
+    using varname_t = typename variable_t::varname_t;
+    auto &vfac = const_cast<varname_t *>(&(like.name()))->get_var_factory();
+    return variable_t(vfac.get(name), like.get_type());
+  }
+
   static void get_fdecl_parameters(const fdecl_t &fdecl,
                                    std::vector<variable_t> &out) {
     out.reserve(fdecl.get_num_inputs() + fdecl.get_num_outputs());
@@ -1036,23 +1042,20 @@ private:
     }
     CRAB_LOG("inter-restrict",
              errs() << "Inv at the caller: " << caller_dom << "\n");
-    // propagate from actual to formal parameters
-    CRAB_LOG("inter-restrict",
-             errs() << "Unifying formal and actual parameters\n";);
-    for (unsigned i = 0, e = fdecl.get_inputs().size(); i < e; ++i) {
-      const variable_t &formal = fdecl.get_inputs()[i];
-      const variable_t &actual = cs.get_args()[i];
-      if (!(formal == actual)) {
-        CRAB_LOG("inter-restrict",
-                 errs() << "\t" << formal << ":" << formal.get_type()
-		        << " and " << actual << ":" << actual.get_type() << "\n";);
-        inter_transformer_helpers<AbsDom>::unify(caller_dom, formal, actual);
-	if (::crab::CrabSanityCheckFlag) {	
-	  if (caller_dom.is_bottom()) {
-	    CRAB_ERROR("Obtained bottom after unification");
-	  }
-	}
+    // propagate from actual to formal parameters *simultaneously*: names of the caller may
+    // coincide with formals at other positions, so go through fresh temporaries
+    {
+      std::vector<variable_t> tmps;
+      tmps.reserve(fdecl.get_inputs().size());
+      for (unsigned i = 0, e = fdecl.get_inputs().size(); i < e; ++i) {
+        const variable_t &formal = fdecl.get_inputs()[i];
+        const variable_t &actual = cs.get_args()[i];
+        variable_t tmp = mk_fresh(formal, "$td_in" + std::to_string(i));
+        inter_transformer_helpers<AbsDom>::unify(caller_dom, tmp, actual);
+        tmps.push_back(tmp);
       }
+      caller_dom.project(tmps);
+      caller_dom.rename(tmps, fdecl.get_inputs());
     }
     CRAB_LOG("inter-restrict", errs() << "Inv after formal/actual unification: "
                                       << caller_dom << "\n";);
@@ -1134,78 +1137,34 @@ private:
                                  << "Caller after forgetting lhs variables="
                                  << caller_dom << "\n";);
 
-    // Wire-up outputs: propagate from callee's outputs to caller's
-    // lhs of the callsite
-    for (unsigned i = 0, e = fdecl.get_outputs().size(); i < e; ++i) {
-      const variable_t &out_formal = fdecl.get_outputs()[i];
-      const variable_t &out_actual = cs.get_lhs()[i];
-      if (!(out_formal == out_actual)) {
-        CRAB_LOG("inter-extend", crab::outs()
-                                     << "Unifying output " << out_actual
-                                     << ":= " << out_formal << "\n";);
-        inter_transformer_helpers<AbsDom>::unify(sum_out_dom, out_actual,
-                                                 out_formal);
-      }
-    }
+    // Rename the callee's formals to fresh names first: names of the caller (lhs, actuals)
+    // may coincide with formals at other positions.
+    std::vector<variable_t> fresh_in, fresh_out, fresh_all;
+    for (unsigned i = 0, e = fdecl.get_inputs().size(); i < e; ++i)
+      fresh_in.push_back(mk_fresh(fdecl.get_inputs()[i], "$td_fi" + std::to_string(i)));
+    for (unsigned i = 0, e = fdecl.get_outputs().size(); i < e; ++i)
+      fresh_out.push_back(mk_fresh(fdecl.get_outputs()[i], "$td_fo" + std::to_string(i)));
+    fresh_all.insert(fresh_all.end(), fresh_in.begin(), fresh_in.end());
+    fresh_all.insert(fresh_all.end(), fresh_out.begin(), fresh_out.end());
+    sum_out_dom.project(sum_out_variables);
+    sum_out_dom.rename(sum_out_variables, fresh_all);
 
-    // Wire-up inputs (propagate from callee's inputs to caller's
-    // inputs at callsite) and remove the callee variables from the
-    // caller continuation. This is needed to propagate up new
-    // input-output relationships and also although an input variable
-    // cannot be re-assigned its value can be further constrained via
-    // assume's.
-    //
-    // This step is a bit tricky because of two things we need to consider:
-    // 1) We cannot forget a callee variable if it appears on the callsite
-    // 2) We cannot propagate up if a callsite input parameter is
-    //    killed at the callsite (i.e., re-defined via callsite output)
-    std::set<variable_t> cs_in_args(cs.get_args().begin(), cs.get_args().end());
+    // Wire-up outputs
+    for (unsigned i = 0, e = fdecl.get_outputs().size(); i < e; ++i) {
+      inter_transformer_helpers<AbsDom>::unify(sum_out_dom, cs.get_lhs()[i], fresh_out[i]);
+    }
+    // Wire-up inputs whose actual is not killed by the callsite
     std::vector<variable_t> killed_cs_in_args =
         set_intersection(cs.get_args(), cs.get_lhs());
-
-    // Variables that appear both as callsite argument and callee's
-    // formal parameter so they shouldn't be forgotten.
-    std::vector<variable_t> caller_and_callee_vars;
-    caller_and_callee_vars.reserve(fdecl.get_inputs().size());
     for (unsigned i = 0, e = fdecl.get_inputs().size(); i < e; ++i) {
-      const variable_t &in_formal = fdecl.get_inputs()[i];
-      if (cs_in_args.count(in_formal) > 0) {
-        caller_and_callee_vars.push_back(in_formal);
-      } else {
-        const variable_t &in_actual = cs.get_args()[i];
-        auto lower = std::lower_bound(killed_cs_in_args.begin(),
-                                      killed_cs_in_args.end(), in_actual);
-        if (lower == killed_cs_in_args.end() ||
-            in_actual < *lower) { // not found
-          // the formal parameter will be forgotten so we need to
-          // unify it with the corresponding actual parameter at the
-          // callsite to propagate up new relationships created in the
-          // callee.
-          //
-          // Note that this can destroy relationships of the actual
-          // parameter at the caller before the call but the meet will
-          // restore them later.
-          //
-          CRAB_LOG("inter-extend", crab::outs()
-                                       << "Unifying input " << in_actual
-                                       << ":=" << in_formal << "\n";);
-          inter_transformer_helpers<AbsDom>::unify(sum_out_dom, in_actual,
-                                                   in_formal);
-        }
+      const variable_t &in_actual = cs.get_args()[i];
+      auto lower = std::lower_bound(killed_cs_in_args.begin(),
+                                    killed_cs_in_args.end(), in_actual);
+      if (lower == killed_cs_in_args.end() || in_actual < *lower) { // not found
+        inter_transformer_helpers<AbsDom>::unify(sum_out_dom, in_actual, fresh_in[i]);
       }
     }
-
-    caller_and_callee_vars.insert(caller_and_callee_vars.end(),
-                                  cs.get_lhs().begin(), cs.get_lhs().end());
-    auto local_vars = set_difference(sum_out_variables, caller_and_callee_vars);
-    // Forget callee's local variables
-    sum_out_dom.forget(local_vars);
-
-    CRAB_LOG("inter-extend", crab::outs()
-                                 << "Forgotten all local callee variables {";
-             for (auto const &v
-                  : local_vars) { crab::outs() << v << ";"; } crab::outs()
-             << "}\n";);
+    sum_out_dom.forget(fresh_all);
 
     CRAB_LOG("inter-extend2", crab::outs()
                                   << "Meet caller with callee:\n"
